@@ -10,6 +10,7 @@ import (
 	"github.com/anishathalye/porcupine"
 
 	"github.com/XiXi-2024/xixi-kv/verifrt/sched"
+	"github.com/XiXi-2024/xixi-kv/verifrt/vos"
 )
 
 // C08 — concurrent Put/Get/Delete are linearizable and agree with restart recovery.
@@ -396,6 +397,36 @@ func c08Tasks(tier string) []Task {
 						c08RunScenario(sc, lv.pb, res)
 					}})
 				}
+			}
+		}
+	}
+	// read-side I/O calls as schedule points (Standard I/O: all readers of a data file share ONE descriptor): two Gets,
+	// or a Get and the Merge scan, interleaved between any two read-side calls
+	one := defaultCfg
+	one.FileSize = 1000 // a and b live in the same file
+	rp := map[string][]Op{
+		"same-file":    {{K: "put", Key: "a", VC: "S"}, {K: "put", Key: "b", VC: "L"}},
+		"older+active": {{K: "put", Key: "a", VC: "L"}, {K: "put", Key: "b", VC: "L"}, {K: "put", Key: "a", VC: "S"}},
+	}
+	for _, cfg := range []Cfg{one, hm} {
+		for _, iname := range sortedKeys(rp) {
+			for si, ts := range [][][]Call{
+				{{{K: "get", Key: "a"}}, {{K: "get", Key: "b"}}},
+				{{{K: "get", Key: "a"}}, {{K: "get", Key: "a"}}},
+				{{{K: "get", Key: "a"}}, {{K: "get", Key: "b"}}, {{K: "put", Key: "a"}}},
+				{{{K: "merge"}}, {{K: "get", Key: "a"}}},
+				{{{K: "merge"}}, {{K: "get", Key: "b"}}, {{K: "get", Key: "a"}}},
+			} {
+				sc := Scenario{Cfg: cfg, Init: rp[iname], Threads: ts}
+				pb := -1
+				if len(ts) == 3 {
+					pb = 2
+				}
+				tasks = append(tasks, Task{Level: "read-points", Name: fmt.Sprintf("read-points #%d %s", si, sc), Fn: func(res *TaskResult) {
+					vos.ReadPoints = true
+					defer func() { vos.ReadPoints = false }()
+					c08RunScenario(sc, pb, res)
+				}})
 			}
 		}
 	}
